@@ -29,9 +29,9 @@ USER_ACTS = ("disconnect", "force", "cancel")
 FAULT_ACTS = ("eof", "reset", "writefail_raise", "writefail_fatal", "silence", "writefail_raise_rt", "reset_etimedout", "lost_raw")
 FRAME_NAMES = (
     "discreq", "state", "state2", "ping", "pong", "devinfo", "unknown", "garbage", "reqenc", "badproto",
-    "hello", "connresp", "discresp", "badmac", "gettime",
+    "hello", "connresp", "discresp", "badmac", "gettime", "badstate",
 )
-CLOSING_FRAMES = {"discreq", "garbage", "reqenc", "badproto", "badmac"}
+CLOSING_FRAMES = {"discreq", "garbage", "reqenc", "badproto", "badmac", "badstate"}
 
 
 def _pb():
@@ -73,6 +73,9 @@ def encode_frames(sess, names: list[str]) -> bytes:
             out += sess.encode((200, b"\x08\x01"))
         elif n == "badproto":
             out += sess.encode((2, b"\x08"))  # HelloResponse with a truncated varint
+        elif n == "badstate":
+            # TextSensorStateResponse (a type the flow subscribes to): key, then a string that is not valid UTF-8
+            out += sess.encode((27, b"\x0d\x07\x00\x00\x00\x12\x02\xff\xfe"))
         elif n == "garbage":
             out += b"\x02\x00\x00zz" if noise else b"\x07\x01\x02"
         elif n == "reqenc":
@@ -851,7 +854,7 @@ def resolve_stage_sweep():
 # ===========================================================================
 SWEEP_CAUSES: list[dict] = (
     [{"do": a} for a in ("disconnect", "force", "cancel", "eof", "reset", "reset_etimedout", "lost_raw", "writefail_raise", "writefail_fatal", "writefail_raise_rt", "reuse_start", "reuse_finish")]
-    + [{"do": "chunk", "frames": f} for f in (["discreq"], ["garbage"], ["reqenc"], ["badproto"], ["badmac"], ["unknown"])]
+    + [{"do": "chunk", "frames": f} for f in (["discreq"], ["garbage"], ["reqenc"], ["badproto"], ["badmac"], ["unknown"], ["badstate"], ["state", "badstate", "state2"])]
     + [{"do": "chunk", "frames": f} for f in (["discreq", "state"], ["discreq", "ping"], ["discreq", "discreq"], ["garbage", "state"], ["state", "discreq", "state2"], ["badproto", "state"])]
 )
 
